@@ -8,7 +8,7 @@ Direct oracle (O) on the real classes:
   * plain Python values (dict / positional list / scalars / lists of scalars) given to the constructor are read back unchanged
     under the library's own equality (a one-element numeric / boolean / binary value reads back as the scalar);
   * lookup by (stream, function): every catalogued pair gives its class, every other pair `None` (exhaustive for streams 0..20);
-  * pairing / reply flags / directions on the live classes and on functions.yaml.
+  * pairing / reply flags / directions on the live classes, on their instances (what the protocol layers read) and on functions.yaml.
 Correspondence (C): Gen.Catalogue rows vs live class attributes; `Model.Catalogue.function` (driver `cat lookup`) vs `StreamsFunctions.function`.
 """
 from __future__ import annotations
@@ -285,6 +285,46 @@ def pairing_problems(rows: dict):
     return out
 
 
+class RobustDriver(hlib.Driver):
+    """the driver binary is relinked whenever another check rebuilds it: wait for it instead of failing on the gap"""
+
+    def __init__(self):
+        import time
+        super().__init__()
+        for _ in range(60):
+            if self.available:
+                break
+            time.sleep(1.0)
+            super().__init__()
+
+    def run(self, lines, timeout: float = 600.0):
+        import time
+        last = None
+        for _ in range(60):
+            try:
+                return super().run(lines, timeout)
+            except (OSError, RuntimeError) as exc:  # missing / half-written executable, or a run cut short by the relink
+                last = exc
+                time.sleep(1.5)
+        raise RuntimeError(f"model driver unusable: {last}")
+
+
+def load_facts():
+    """gen/facts.json is rewritten by every check run (also concurrent ones of other properties): retry a torn read"""
+    import time
+    last = None
+    for _ in range(25):
+        try:
+            with open(os.path.join(hlib.ROOT, "gen", "facts.json")) as fh:
+                facts = json.load(fh)
+            if "Catalogue" in facts and "DataItems" in facts:
+                return facts
+        except (OSError, ValueError) as exc:
+            last = exc
+        time.sleep(0.2)
+    raise RuntimeError(f"gen/facts.json unreadable: {last}")
+
+
 def main():
     a = hlib.std_args()
     if a.replay:
@@ -292,15 +332,24 @@ def main():
         rp = json.load(open(a.replay))
         a.seed, a.tier = int(rp.get("seed", a.seed)), rp.get("tier", a.tier)
     res = hlib.Result("C03", a.tier, a.seed)
+    _violate, _per_class = res.violate, {}
+
+    def capped_violate(klass, *args, **kw):
+        """at most eight entries per finding class, so that a flood of one class cannot push another one out of the report"""
+        _per_class[klass] = _per_class.get(klass, 0) + 1
+        res.bump("violations_by_class", klass)
+        if _per_class[klass] <= 8:
+            _violate(klass, *args, **kw)
+    res.violate = capped_violate
     rng = hlib.Rng(a.seed ^ 0xC03)
-    drv = hlib.Driver()
+    drv = RobustDriver()
     big = a.tier == "thorough" or a.search
     res.rule = ("for each of the catalogue's functions: values generated from the live variable tree of the class — typed (every alternative type of every "
                 "dynamic item at least once per run), plain dict, plain positional; open list lengths 0,1,2,n; length-limited items at their limit; numeric "
                 "boundaries (min, max, 0, +-FLT_MAX/DBL_MAX, subnormals) — through cls(value).encode() and StreamsFunctions.decode(HsmsMessage(header(s,f), body)); "
                 "lookup for all (s,f) with s<=20,f<=255; pairing/flags/YAML on all rows. distinct = distinct (function, encoded body, mode); non-trivial = function with a body")
 
-    facts = json.load(open(os.path.join(hlib.ROOT, "gen", "facts.json")))
+    facts = load_facts()
     gen_rows = {(r["stream"], r["function"]): r for r in facts["Catalogue"]["py"]}
     gen_yaml = {(r["stream"], r["function"]): r for r in facts["Catalogue"]["yaml"]}
     settings = secsgem.hsms.HsmsSettings()
@@ -360,6 +409,16 @@ def main():
             res.count(("unusable", cls.__name__), nontrivial=False)
             res.violate("c03-structure-unusable", "the class cannot be instantiated from its own _data_format",
                         {"function": cls.__name__, "data_format": cls._data_format}, "an object", f"{type(exc).__name__}: {str(exc)[:200]}")
+    # the flags an *instance* carries (what the protocol layers read when they build the header) are the declared ones
+    inst_attrs = ["to_host", "to_equipment", "has_reply", "is_reply_required", "is_multi_block"]
+    for cls in usable:
+        inst = cls()
+        res.count(("instance-flags", cls.__name__), nontrivial=False)
+        got = [getattr(inst, x, None) for x in inst_attrs]
+        want = [getattr(cls, x) for x in flag_attrs]
+        if got != want or inst.stream != cls._stream or inst.function != cls._function or inst.data_format != cls._data_format:
+            res.violate("c03-instance-flags", "an instance does not carry the flags / numbers its class (and functions.yaml) declares",
+                        {"function": cls.__name__, "attributes": inst_attrs}, want, got)
     for cls in usable:
         inst = cls()
         for leaf in leaves_of(inst.data, []):
